@@ -214,7 +214,7 @@ func evalErrText(err error) (kind, text string) {
 		if strings.HasPrefix(l, "\tat ") || l == "" {
 			continue
 		}
-		l = strings.TrimSpace(l)
+		l = strings.TrimPrefix(strings.TrimSpace(l), "* ")
 		if strings.HasSuffix(l, "errors occurred:") {
 			continue
 		}
@@ -242,7 +242,7 @@ func runFragment(ev *ugo.Eval, src string) (fo fragOut) {
 			fo = fragOut{kind: "panic", res: fmt.Sprint(r), out: buf.String()}
 		}
 	}()
-	ctx, cancel := context.WithTimeout(context.Background(), 3*time.Second)
+	ctx, cancel := context.WithTimeout(context.Background(), 1*time.Second)
 	defer cancel()
 	ret, bc, err := ev.Run(ctx, []byte(src))
 	fo.out = buf.String()
@@ -252,6 +252,10 @@ func runFragment(ev *ugo.Eval, src string) (fo fragOut) {
 	if err != nil {
 		fo.err = err
 		fo.kind, fo.res = evalErrText(err)
+		if err == context.DeadlineExceeded || err == ugo.ErrVMAborted {
+			// a script that does not end: where the abort lands is a matter of timing
+			fo.kind = "timeout"
+		}
 		return
 	}
 	fo.kind = "ok"
@@ -362,6 +366,10 @@ func checkCut(c *Ctx, cfg evalCfg, es *gen.EvalScript, mask uint64, batch map[in
 		c.Count("fragment:" + so.kind)
 		codeless = so.kind == "ok" && so.res == "u" && so.bc != nil && len(so.bc.Main.Instructions) == 2 &&
 			so.bc.Main.Instructions[0] == ugo.OpReturn && b.fo.kind == "ok"
+		if so.kind == "timeout" || b.fo.kind == "timeout" {
+			c.Count("timeout")
+			return
+		}
 		if so.kind == "panic" || b.fo.kind == "panic" {
 			viol("panic", fmt.Sprintf("fragment %d: session %s %s, batch %s %s", k, so.kind, so.res, b.fo.kind, b.fo.res), k)
 			return
@@ -469,6 +477,8 @@ func evalImplAnswer(frags []string, args []ugo.Object) string {
 			recs = append(recs, "cerr -")
 		case "panic":
 			recs = append(recs, "panic")
+		case "timeout":
+			recs = append(recs, "unsupported timeout")
 		default:
 			if fo.bc == nil {
 				recs = append(recs, "cerr -")
@@ -483,6 +493,11 @@ func evalImplAnswer(frags []string, args []ugo.Object) string {
 			nconst = len(fo.bc.Constants)
 			recs = append(recs, rec)
 		}
+		if fo.kind != "ok" {
+			// the property compares nothing after the first failing fragment; neither does the lock-step
+			// (a failed fragment can leave declared-but-unassigned names on stale slots, e.g. an iterator)
+			break
+		}
 	}
 	return strings.Join(recs, " ;; ")
 }
@@ -492,7 +507,7 @@ func evalImplAnswer(frags []string, args []ugo.Object) string {
 func evalSame(impl, model string) bool {
 	ri, rm := strings.Split(impl, " ;; "), strings.Split(model, " ;; ")
 	for i := range rm {
-		if strings.HasPrefix(rm[i], "unsupported") {
+		if strings.HasPrefix(rm[i], "unsupported") || (i < len(ri) && strings.HasPrefix(ri[i], "unsupported")) {
 			return true
 		}
 		if i >= len(ri) || ri[i] != rm[i] {
@@ -573,8 +588,13 @@ func init() {
 					}
 				}
 				batch := map[int]*batchRes{}
+				t0 := time.Now()
 				for _, m := range masks {
 					checkCut(c, cfg, es, m, batch)
+					if time.Since(t0) > 5*time.Second {
+						c.Count("script-cut-short")
+						break
+					}
 				}
 				c.Count("cuts")
 				// (b) two cuts per script go to the model: all single statements, and a random one
